@@ -7,24 +7,40 @@ cShapesNoSens == {[nS |-> a, nC |-> b, nK |-> c, sens |-> <<>>] : a \in 1..3, b 
 cShapesAll == cShapes \cup cShapesNoSens
 cShapesC12 == {[nS |-> a, nC |-> b, nK |-> c, sens |-> s] : a \in 1..2, b \in 0..2, c \in 0..1, s \in {<<>>, <<2>>, <<1, 2>>, <<1, 1, 2>>}}
 cActsNone == {}
+cShapesE == {[nS |-> 2, nC |-> 1, nK |-> c, sens |-> <<2>>] : c \in 0..1}
+cSeqE == <<"b", "A0", "a_", "a1">>
+cSymsE == {"b", "A0", "a_", "a1"}
+cOpsE == {"add", "mul", "sub"}
+cConstsE == <<RI(2)>>
+cValsE == <<RI(1), RI(-2), RI(3)>>
+cDtsE == <<RQ(1,2)>>
+cPDiagE == <<1, 2>>
+cPVecE == <<1, -1>>
+cZE == <<RI(1), RI(-9)>>
+cSensE == {"s1"}
+cReadE == {"r", "Q"}
+cKsE == {NoGate, RI(1)}
+cCalE == <<RI(2)>>
+cNoiseE == <<RI(1), RI(3)>>
 cShapesBig == {[nS |-> 3, nC |-> b, nK |-> c, sens |-> s] : b \in 1..2, c \in 0..1, s \in {<<3>>, <<2, 2>>, <<3, 2>>}}
 cSyms == SymPool
 cActsEval == {"ModelEval", "JacEval", "SensEval"}
 cSensors == SensorPool
 cReadings == ReadingPool
-cOpsAll == {"add","sub","mul","div","neg","pow2","pow3","sin","cos","exp","tanh","atan","sqrt1","log1","tan","asinb","acosb"}
-cOpsRat == {"add","sub","mul","div","neg","pow2"}
+cOpsAll == {"add","sub","mul","div","neg","pow2","pow3","sin","cos","exp","tanh","atan","sqrt1","log1","tan","asinb","acosb","muldt"}
+cOpsRat == {"add","sub","mul","div","neg","pow2","muldt"}
+cOpsLin == {"add","sub","neg","muldt"}
 cConsts == <<RI(2), RQ(1,2), RI(-1), RI(3)>>
 cVals == <<RI(1), RI(-2), RI(3), RI(-1), RI(2), RI(-3), RQ(1,2), RQ(-3,2), RQ(5,4)>>
 cValsInt == <<RI(1), RI(-2), RI(3), RI(-1), RI(2), RI(0), RI(-3)>>
-cDts == <<RQ(1,8), RQ(1,4), RQ(1,2), RI(1)>>
-cDts2 == <<RQ(1,4), RQ(1,2)>>
+cDts == <<RQ(1,8), RQ(1,4), RQ(1,2), RI(1), RI(0), RQ(-1,4)>>
+cDts2 == <<RQ(1,4), RQ(1,2), RI(0)>>
 cCalVals == <<RI(2), RI(-1), RQ(3,2), RI(-3)>>
 cPNoise == <<RI(1), RI(2), RI(3), RQ(1,2)>>
 cSNoise == <<RI(1), RI(3), RI(2), RI(5), RI(4)>>
 cKsNone == {NoGate}
-cKsAll == {NoGate, RI(1), RI(3), RI(5), RQ(1,2)}
-cKsOn == {RI(1), RI(3), RI(5), RQ(1,2)}
+cKsAll == {NoGate, RI(1), RI(3), RI(5), RQ(1,2), RQ(322,125), RQ(1,256)}
+cKsOn == {RI(1), RI(3), RI(5), RQ(1,2), RQ(322,125), RQ(1,256)}
 cPDiag == <<1, 2, 3, 4>>
 cPVec == <<1, 0, -1, 2>>
 cZDeltas == <<RI(1), RI(-2), RQ(1,2), RI(5), RI(-9), RI(40), RI(0), RI(3)>>
